@@ -6,7 +6,7 @@ TABLE = {
     "C01": ("sim.scenarios.state", "C01", "exploration", 4000, 400000),
     "C02": ("sim.scenarios.persist", "C02", "exploration", 3000, 300000),
     "C03": ("sim.scenarios.persist", "C03", "exploration", 3000, 300000),
-    "C06": ("sim.scenarios.state", "C06", "exploration", 4000, 400000),
+    "C06": ("sim.scenarios.c06", "SCENARIO", "exploration", 4000, 400000),
     "C07": ("sim.scenarios.keyfile", "SCENARIO", "exploration", 20000, 1500000),
     "C08": ("sim.scenarios.crypto", "C08", "exploration", 8000, 1000000),
     "C09": ("sim.scenarios.crypto", "C09", "exploration", 4000, 500000),
@@ -17,6 +17,7 @@ TABLE = {
     "C14": ("sim.scenarios.environment", "SCENARIO", "exploration", 4000, 400000),
     "C16": ("sim.scenarios.naming", "SCENARIO", "exploration", 4000, 400000),
     "C17": ("sim.scenarios.containers", "SCENARIO", "exploration", 8000, 800000),
+    "C18": ("sim.scenarios.includes", "SCENARIO", "exploration", 4000, 400000),
     "C19": ("sim.scenarios.savecrash", "SCENARIO", "fault_enumeration", 1500, 100000),
 }
 
